@@ -1120,7 +1120,8 @@ fn c08_step(w: &mut MWorld, info: &SimInfo, sn: &Snap) -> Option<Violation> {
         _ => None,
     };
     let lifo = w.sc.pool.lifo;
-    if !removed.is_empty() && w.orc.model_ordered {
+    // the diff must cover exactly this step (the books were readable after the previous one)
+    if !removed.is_empty() && w.orc.model_ordered && w.orc.idle_prev_valid {
         let by_get = actor
             .and_then(|a| w.cur_op.get(a).copied().flatten().or(w.orc.last_op_of_actor.get(&a).copied()))
             .map(|opi| matches!(w.ops[opi].op, Op::Get { .. }))
@@ -1940,7 +1941,10 @@ pub fn c10_get_return(w: &mut MWorld, opi: usize) -> Option<Violation> {
         if !overlapped(w, opi) && calls.is_empty() && !abandoned {
             // differential: nothing else running => the verdict is determined by free capacity
             if let Some((s0, _, _)) = op.snap0.clone() {
-                let free = s0.max_size as isize - (w.n_out() as isize);
+                let free = w.cur_max_size() as isize - (w.n_out() as isize);
+                if w.orc.resizes_in_progress > 0 || w.orc.max_ambiguous.is_some() {
+                    return None;
+                }
                 let exp_timeout = free <= 0;
                 match (&res, s0.closed, exp_timeout) {
                     (OpRes::GetErr(ErrV::Closed), true, _) => {}
